@@ -700,31 +700,35 @@ Record PreUpd (p : profile) (A : list svc) (s : svc) (B : list svc) : Prop := mk
   u_start : 1 <= p_start p;
   u_chainA : gchain svc_entries (p_start p) A (s_handle s);
   u_okA : Forall svc_ok A;
-  u_ok : svc_ok s;
   u_db : exists X, p_db p = all_entries A ++ X /\ all_ge X (s_handle s);
   u_cmap : exists Y, p_cmap p = all_cmap A ++ Y /\ all_ge Y (s_handle s);
   u_ids : ids_ok (p_fresh p) (A ++ s :: B) }.
 
+(** the updated service is laid out again from its own handle, whatever its state *)
 Lemma update_at_eq p A s B :
   p_svcs p = A ++ s :: B ->
   update_at p (length A) =
-  let B' := shift_services (s_end s) B in
-  mkP (p_start p) (last_svc_end (s_end s) B' + 1) (p_fresh p) (A ++ s :: B')
-      (fold_left (fun d x => db_set_all (svc_entries x) d) (s :: B') (db_below (s_handle s) (p_db p)))
-      (fold_left (fun d x => db_set_all (svc_cmap x) d) (s :: B') (db_below (s_handle s) (p_cmap p))).
+  let r := svc_set_handle (s_handle s) s in
+  let B' := shift_services (s_end r) B in
+  mkP (p_start p) (last_svc_end (s_end r) B' + 1) (p_fresh p) (A ++ r :: B')
+      (fold_left (fun d x => db_set_all (svc_entries x) d) (r :: B') (db_below (s_handle s) (p_db p)))
+      (fold_left (fun d x => db_set_all (svc_cmap x) d) (r :: B') (db_below (s_handle s) (p_cmap p))).
 Proof.
   intros H. unfold update_at. rewrite H, nth_mid, firstn_mid, skipn_mid. reflexivity.
 Qed.
 
 Lemma update_at_inv p A s B : PreUpd p A s B -> Inv (update_at p (length A)).
 Proof.
-  intros [Hsv Hst HcA HokA Hok (X & Hdb & HX) (Y & Hcm & HY) Hid].
+  intros [Hsv Hst HcA HokA (X & Hdb & HX) (Y & Hcm & HY) Hid].
   rewrite (update_at_eq _ _ _ _ Hsv). cbv zeta.
-  destruct (shift_services_props (s_end s) B) as (HokB & HcB & _).
-  set (B' := shift_services (s_end s) B) in *.
-  assert (Hc1 : gchain svc_entries (s_handle s) (s :: B') (last_svc_end (s_end s) B' + 1)).
+  set (r := svc_set_handle (s_handle s) s).
+  assert (Hok : svc_ok r) by apply svc_ok_set.
+  assert (Hr : s_handle r = s_handle s) by reflexivity.
+  destruct (shift_services_props (s_end r) B) as (HokB & HcB & _).
+  set (B' := shift_services (s_end r) B) in *.
+  assert (Hc1 : gchain svc_entries (s_handle s) (r :: B') (last_svc_end (s_end r) B' + 1)).
   { cbn [gchain]. split; [lia|]. split; [now apply svc_ok_sorted|exact HcB]. }
-  assert (Hok1 : Forall svc_ok (s :: B')) by (now constructor).
+  assert (Hok1 : Forall svc_ok (r :: B')) by (now constructor).
   constructor; [constructor|..]; cbn [p_start p_next p_fresh p_svcs p_db p_cmap].
   - exact Hst.
   - eapply gchain_app_intro; [exact HcA|exact Hc1].
@@ -732,7 +736,7 @@ Proof.
     rewrite (register_chain svc_entries (s_handle s) _ _ _ Hc1); [|apply (gchain_entries _ _ _ _ HcA)].
     unfold all_entries. now rewrite flat_map_app.
   - destruct Hid as [H1 H2]. unfold ids_ok. rewrite all_ids_app in *. cbn [all_ids flat_map] in *.
-    fold (all_ids B') . fold (all_ids B) in H1, H2. unfold B'. rewrite all_ids_shift. now split.
+    fold (all_ids B'). fold (all_ids B) in H1, H2. unfold B', r. rewrite all_ids_shift, svc_ids_set. now split.
   - apply Forall_app. now split.
   - pose proof (gchain_cmap _ _ _ HcA HokA) as HcA'. pose proof (gchain_cmap _ _ _ Hc1 Hok1) as Hc1'.
     rewrite Hcm, db_below_app; [|apply (gchain_entries _ _ _ _ HcA')|exact HY].
@@ -777,18 +781,17 @@ Proof.
 Qed.
 
 Lemma preupd_modify p A s B s' fresh' :
-  Inv p -> p_svcs p = A ++ s :: B -> s_handle s' = s_handle s -> svc_ok s' ->
+  Inv p -> p_svcs p = A ++ s :: B -> s_handle s' = s_handle s ->
   ids_ok fresh' (A ++ s' :: B) ->
   PreUpd (set_svc_at p (length A) s' fresh') A s' B.
 Proof.
-  intros HI Hsv Hh Hok' Hid. destruct (inv_split _ _ _ _ HI Hsv) as (H1 & H2 & H3 & H4 & H5 & H6 & H7).
+  intros HI Hsv Hh Hid. destruct (inv_split _ _ _ _ HI Hsv) as (H1 & H2 & H3 & H4 & H5 & H6 & H7).
   destruct HI as [[Hst Hc Hdb _] _ Hcm].
   constructor; cbn [set_svc_at p_svcs p_start p_db p_cmap p_fresh]; try rewrite Hh.
   - now rewrite Hsv, firstn_mid, skipn_mid.
   - exact Hst.
   - exact H1.
   - exact H4.
-  - exact Hok'.
   - exists (all_entries (s :: B)). split; [|exact H2]. rewrite Hdb, Hsv. unfold all_entries. now rewrite flat_map_app.
   - exists (all_cmap (s :: B)). split; [|exact H3]. rewrite Hcm, Hsv. unfold all_cmap. now rewrite flat_map_app.
   - exact Hid.
@@ -999,6 +1002,13 @@ Qed.
 
 (** * Every operation preserves the invariant *)
 
+Lemma map_nth_ids (f : chr -> chr) j l : (forall c, c_id (f c) = c_id c) -> map c_id (map_nth f j l) = map c_id l.
+Proof.
+  intros Hf. revert j; induction l as [|c r IH]; intros j; destruct j; cbn [map_nth map]; try reflexivity.
+  - now rewrite Hf.
+  - now rewrite IH.
+Qed.
+
 Definition tight_p (p : profile) : Prop := tight (p_start p) (p_svcs p) (p_next p).
 
 Lemma update_at_none p i : nth_error (p_svcs p) i = None -> update_at p i = p.
@@ -1009,7 +1019,7 @@ Lemma step_inv p o :
   exists q, step p o = Done q /\ Inv q /\ p_start q = p_start p
             /\ (is_remove o = false -> tight_p p -> tight_p q).
 Proof.
-  intros HI. destruct o as [sd|i|i cd|i j|i]; cbn [step is_remove].
+  intros HI. destruct o as [sd|i|i cd|i j|i j dd|i]; cbn [step is_remove].
   - eexists. split; [reflexivity|]. pose proof (svc_template_handle sd) as H0.
     split; [now apply add_service_inv|]. split; [reflexivity|]. intros _ Ht. now apply add_service_tight.
   - destruct (nth_error (p_svcs p) i) as [s|] eqn:E.
@@ -1039,12 +1049,25 @@ Proof.
     apply nth_error_split' in E as (A & B & Hsv & <-).
     set (s' := svc_set_handle (s_handle s) (set_chars s (remove_nth j (s_chars s)))).
     assert (Hpre : PreUpd (set_svc_at p (length A) s' (p_fresh p)) A s' B).
-    { apply (preupd_modify p A s B); try assumption; [reflexivity|apply svc_ok_set|].
+    { apply (preupd_modify p A s B); try assumption; [reflexivity|].
       destruct (remove_nth_split _ _ Ej) as (a & x & b & H1 & H2).
       apply (ids_ok_replace_sub (p_fresh p) A s s' B (s_id s :: map c_id a) (c_id x) (map c_id b));
         [| |rewrite <- Hsv; apply HI].
       - unfold svc_ids. rewrite H1, map_app. reflexivity.
       - unfold s'. rewrite svc_ids_set. unfold svc_ids, set_chars. cbn [s_id s_chars]. rewrite H2, map_app. reflexivity. }
+    eexists. split; [reflexivity|]. split; [apply (update_at_inv _ _ _ _ Hpre)|].
+    split; [rewrite (update_at_eq _ _ _ _ (u_svcs _ _ _ _ Hpre)); reflexivity|].
+    intros _ Ht. apply (update_at_tight _ _ s' B (u_svcs _ _ _ _ Hpre)).
+    cbn [set_svc_at p_start]. change (s_handle s') with (s_handle s). now apply tight_split with (B := B).
+  - destruct (nth_error (p_svcs p) i) as [s|] eqn:E; [|exists p; split; [reflexivity|]; split; [assumption|]; split; [reflexivity|auto]].
+    apply nth_error_split' in E as (A & B & Hsv & <-).
+    set (s' := set_chars s (map_nth (fun c => chr_add_desc c (desc_of_def dd)) j (s_chars s))).
+    assert (Hids : svc_ids s' = svc_ids s).
+    { unfold svc_ids, s', set_chars. cbn [s_id s_chars]. f_equal. apply map_nth_ids. reflexivity. }
+    assert (Hpre : PreUpd (set_svc_at p (length A) s' (p_fresh p)) A s' B).
+    { apply (preupd_modify p A s B); try assumption; [reflexivity|].
+      destruct HI as [[_ _ _ Hid] _ _]. rewrite Hsv in Hid. unfold ids_ok in *. rewrite all_ids_app in *.
+      cbn [all_ids flat_map] in *. now rewrite Hids. }
     eexists. split; [reflexivity|]. split; [apply (update_at_inv _ _ _ _ Hpre)|].
     split; [rewrite (update_at_eq _ _ _ _ (u_svcs _ _ _ _ Hpre)); reflexivity|].
     intros _ Ht. apply (update_at_tight _ _ s' B (u_svcs _ _ _ _ Hpre)).
